@@ -28,3 +28,107 @@ Proof.
     destruct (b_crash (bnb_step offs d e R rem cl)); [apply bnb_step_qty|].
     cbn [b_legs b_rem]. rewrite legs_qty_app, IH, bnb_step_qty. ring.
 Qed.
+
+(* ---------- C01: legs of the look-ahead ---------- *)
+Lemma bnb_step_legs offs d e R rem cl l :
+  In l (b_legs (bnb_step offs d e R rem cl)) ->
+  lg_rule l = BnB /\ lg_acq l = Some (dt e) /\ lg_sell l = dt d /\ hasbuy e = true.
+Proof.
+  unfold bnb_step. destruct (hasbuy e) eqn:Hb; cbn [andb]; [|cbn [b_legs bres0]; intros []].
+  destruct (qltb 0 (free_of e cl)); cbn [b_legs bres0]; [|intros []].
+  intros [<-|[]]. cbn [lg_rule lg_acq lg_sell mk_leg]. auto.
+Qed.
+
+Lemma bnb_legs w offs d fut : forall R rem cl l,
+  In l (b_legs (bnb w offs d fut R rem cl)) ->
+  lg_rule l = BnB /\ lg_sell l = dt d /\
+  exists e, In e fut /\ lg_acq l = Some (dt e) /\ hasbuy e = true /\ (dt e - dt d <= w)%Z.
+Proof.
+  induction fut as [|e r IH]; intros R rem cl l; cbn [bnb].
+  - cbn [b_legs bres0]. intros [].
+  - destruct (negb (qltb 0 rem)); [cbn [b_legs bres0]; intros []|].
+    destruct (dt e - dt d >? w)%Z eqn:Hw; [cbn [b_legs bres0]; intros []|].
+    assert (Hle : (dt e - dt d <= w)%Z) by lia.
+    assert (Hstep : In l (b_legs (bnb_step offs d e R rem cl)) ->
+      lg_rule l = BnB /\ lg_sell l = dt d /\
+      exists e0, In e0 (e :: r) /\ lg_acq l = Some (dt e0) /\ hasbuy e0 = true /\ (dt e0 - dt d <= w)%Z).
+    { intros H. apply bnb_step_legs in H. destruct H as (H1 & H2 & H3 & H4).
+      split; [exact H1|]. split; [exact H3|]. exists e. split; [left; reflexivity|]. auto. }
+    destruct (b_crash (bnb_step offs d e R rem cl)); [exact Hstep|].
+    cbn [b_legs]. intros H. apply in_app_or in H. destruct H as [H|H]; [exact (Hstep H)|].
+    apply IH in H. destruct H as (H1 & H2 & e0 & He0 & H3).
+    split; [exact H1|]. split; [exact H2|]. exists e0. split; [right; exact He0|exact H3].
+Qed.
+
+(* ---------- C03: removal from the pool at average cost conserves cost ---------- *)
+Definition legs_cost (ls : list leg) : Qc := qsum (map lg_cost ls).
+Lemma pool_step_cost d s rem :
+  legs_cost (fst (fst (pool_step d s rem))) + snd (snd (pool_step d s rem)) = m_pc s.
+Proof.
+  unfold pool_step.
+  destruct (qltb 0 rem && m_pooled s && negb (qeqb (m_pq s) 0) && negb (qeqb (sq d) 0));
+    cbn [fst snd]; unfold legs_cost; cbn [map lg_cost mk_leg]; rewrite ?qsum_one, ?qsum_nil; ring.
+Qed.
+Lemma pool_step_qty d s rem :
+  legs_qty (fst (fst (pool_step d s rem))) = rem - snd (fst (pool_step d s rem)) /\
+  fst (snd (pool_step d s rem)) = m_pq s - (rem - snd (fst (pool_step d s rem))).
+Proof.
+  unfold pool_step.
+  destruct (qltb 0 rem && m_pooled s && negb (qeqb (m_pq s) 0) && negb (qeqb (sq d) 0));
+    cbn [fst snd]; unfold legs_qty; cbn [map lg_qty mk_leg]; rewrite ?qsum_one, ?qsum_nil; split; ring.
+Qed.
+
+(* ---------- C04: a leg's gain is its net proceeds less its cost ---------- *)
+Lemma mk_leg_gain d r m acq c : lg_gain (mk_leg d r m acq c) = lg_net (mk_leg d r m acq c) - c.
+Proof. reflexivity. Qed.
+Lemma mk_leg_net d r m acq c : lg_net (mk_leg d r m acq c) = lg_gross (mk_leg d r m acq c) - sfees d * (m / sq d).
+Proof. reflexivity. Qed.
+
+(* ---------- C12: the look-ahead never reads beyond the window ---------- *)
+Lemma bnb_beyond w offs d fut1 fut2 : forall R rem cl,
+  (forall e, In e fut2 -> (dt e - dt d > w)%Z) ->
+  bnb w offs d (fut1 ++ fut2) R rem cl = bnb w offs d fut1 R rem cl.
+Proof.
+  induction fut1 as [|e r IH]; intros R rem cl H; cbn [app].
+  - destruct fut2 as [|e r]; [reflexivity|]. cbn [bnb].
+    destruct (negb (qltb 0 rem)); [reflexivity|].
+    assert (dt e - dt d > w)%Z as Hw by (apply H; left; reflexivity).
+    destruct (dt e - dt d >? w)%Z eqn:E; [reflexivity|lia].
+  - cbn [bnb]. destruct (negb (qltb 0 rem)); [reflexivity|].
+    destruct (dt e - dt d >? w)%Z; [reflexivity|].
+    destruct (b_crash (bnb_step offs d e R rem cl)); [reflexivity|].
+    rewrite IH by exact H. reflexivity.
+Qed.
+
+(* ---------- C05: a sale beyond the position is refused, naming its date ---------- *)
+Lemma sell_step_position w offs s d fut avail0 pos1 :
+  pos1 < sq d -> sell_step w offs s d fut avail0 pos1 = inl (EExceedsHolding (dt d)).
+Proof.
+  intros H. unfold sell_step. destruct (qltb_spec pos1 (sq d)) as [_|N]; [reflexivity|contradiction].
+Qed.
+
+(* ---------- C11: an adjustment is apportioned in full over the shares held ---------- *)
+Definition offs_total (ls : list plot) : Qc := qsum (map pl_off ls).
+Lemma held_pos_sum ls : (forall l, In l ls -> 0 <= pl_held l) ->
+  qsum (map (fun l => if qltb 0 (pl_held l) then pl_held l else 0) ls) = total_held ls.
+Proof.
+  unfold total_held. induction ls as [|l r IH]; intros H; cbn [map]; [reflexivity|].
+  rewrite !qsum_cons, IH by (intros x Hx; apply H; right; exact Hx).
+  destruct (qltb_spec 0 (pl_held l)) as [P|N]; [reflexivity|].
+  assert (0 <= pl_held l) as Q by (apply H; left; reflexivity).
+  assert (pl_held l = 0) as -> by (qc2q; lra). ring.
+Qed.
+Lemma apply_adj_sum ls a th :
+  qsum (map (fun x => pl_off (if qltb 0 (pl_held x) then pl_add_off x (a * (pl_held x / th)) else x)) ls)
+  = qsum (map pl_off ls) + a * (qsum (map (fun l => if qltb 0 (pl_held l) then pl_held l else 0) ls) / th).
+Proof.
+  induction ls as [|l r IH]; cbn [map]; rewrite ?qsum_cons, ?qsum_nil.
+  - unfold Qcdiv. ring.
+  - rewrite IH. destruct (qltb 0 (pl_held l)); cbn [pl_off pl_add_off]; unfold Qcdiv; ring.
+Qed.
+Lemma apply_adj_total ls a : (forall l, In l ls -> 0 <= pl_held l) -> total_held ls <> 0 ->
+  offs_total (apply_adj ls a) = offs_total ls + a.
+Proof.
+  intros Hh Hne. unfold apply_adj. destruct (qeqb_spec (total_held ls) 0) as [E|_]; [contradiction|].
+  unfold offs_total. rewrite map_map, apply_adj_sum, held_pos_sum by exact Hh. field. exact Hne.
+Qed.
